@@ -26,7 +26,7 @@ TInit == /\ Init /\ ep = 1 /\ stage = "load" /\ nAcc = 0 /\ nRej = 0
 Load == /\ ep <= NEp /\ stage = "load"
         /\ P' = E.prog
         /\ call' = [tensors |-> E.tensors, inputs |-> SeqToSet(E.inputs), k |-> E.k, w |-> E.w,
-                    pre |-> {l \in SeqToSet(E.inputs) : E.grad0[l] # <<>>}]
+                    pre |-> {l \in SeqToSet(E.inputs) : E.grad0[l] # <<>>}, m |-> Len(E.w)]
         /\ grad' = [l \in {i \in 1..Len(E.prog) : E.prog[i].op = "leaf"} |-> E.grad0[l]]
         /\ phase' = "init" /\ stage' = "agg"
         /\ UNCHANGED <<d, ordJ, rows, sweeps, pending, ep, nAcc, nRej>>
